@@ -5,7 +5,7 @@ from .. import common
 from .. import fam_pipeline as fp
 from .. import pipeline as pl
 
-THEOREMS = ["C01.inserted_name_fresh", "C01.opcode_index_ok", "C01.step_insertQuant", "C01.step_insertDequant", "C01.step_quantizeTensor", "C01.performer_wf", "C01.modify_wf", "C01.quantize_wf"]
+THEOREMS = ["C01.inserted_name_fresh", "C01.opcode_index_ok", "C01.step_insertQuant", "C01.step_insertDequant", "C01.step_quantizeTensor", "C01.performer_wf", "C01.modify_wf", "C01.quantize_wf", "NFCheckProofs.nfOK_sound"]
 
 
 def run(ctx):
@@ -15,20 +15,15 @@ def run(ctx):
                 "regexes built from the model's tensor names) x random calibration data; every case goes through the real pipeline, the "
                 "graph stage is compared with the Lean model, the returned bytes are checked by an independent well-formedness checker and "
                 "run in a sandboxed interpreter; distinct = distinct (model, recipe) pairs")
-    common.proof_side(ctx, THEOREMS)
+    common.proof_side(ctx, THEOREMS, modules=["QProps.C01", "QProofs.NFCheckProofs"])
     drv = common.Driver()
     interp = pl.Interp()
-    rng = ctx.rng
-    n = 220 if ctx.tier == "quick" else 4000
-    for i in range(n):
-        if ctx.left() < 25:
-            break
-        case = fp.gen_case(rng, i)
-        res = fp.run_case(ctx, drv, case)
-        fp.count_tags(ctx, case, res)
-        ctx.case({"ops": [sg["ops"] for sg in case.info["subgraphs"]], "recipe": case.desc}, res["status"] != "empty")
+    def per_case(case, res):
         if res["status"] == "ok":
             fp.oracle_c01(ctx, interp, case, res)
+    # graph stage (instructions + performer on abstract parameter classes) AND the whole pipeline (bit-exact output, WF.modelOK /
+    # skeleton evaluated on the model's own output, NF membership) are compared with the Lean model on every case
+    fp.explore(ctx, drv, 220 if ctx.tier == "quick" else 4000, per_case, graph_corr=True, pipe_corr=True)
     interp.close()
     drv.close()
     return common.finish(ctx)
